@@ -232,7 +232,9 @@ pub fn gen_replay(seed: u64, focus_arg: &str) -> Replay {
         sizes.push(*rng.pick(&Size::ALL));
     }
     // op weights: map_to, map_with_flags, identity, unmap, update, setp, translate_page, translate, clean, clean_range, touch
-    let mut wts: Vec<u32> = (0..11).map(|_| 1 + rng.below(10) as u32).collect();
+    let mut wts: Vec<u32> = (0..12).map(|_| 1 + rng.below(10) as u32).collect();
+    // foreign misaligned huge entries: a variant of 10 % of the runs
+    wts[11] = if rng.chance(10) { 6 } else { 0 };
     wts[0] += 6;
     wts[1] += 6;
     wts[3] += 3;
@@ -321,6 +323,20 @@ pub fn gen_replay(seed: u64, focus_arg: &str) -> Replay {
                     (a.min(b), a.max(b))
                 };
                 Step::CleanUpRange { start, end }
+            }
+            11 => {
+                let sz = if g.rng.chance(50) { Size::M2 } else { Size::G1 };
+                // a free slot next to something that exists (same table with some luck)
+                let base = g.page(sz);
+                let k = g.rng.range(1, 3) * sz.bytes();
+                let lin = base & 0x0000_ffff_ffff_ffff;
+                let page = canon(if g.rng.chance(50) { lin.wrapping_add(k) } else { lin.wrapping_sub(k) }) & !(sz.bytes() - 1);
+                let frame = g.frame(sz, false);
+                // misalign: some address bit between 13 and the size boundary
+                let hi = if sz == Size::M2 { 20 } else { 29 };
+                let bit = g.rng.range(13, hi);
+                let raw = (frame | 1 << bit | 0x81 | (rand_flags(g.rng, 20) & !0x1000)) & 0x800f_ffff_ffff_ffff;
+                Step::Poke { size: sz, page, raw }
             }
             _ => {
                 let p = g.page(size);
